@@ -99,6 +99,22 @@ CLAIMS["C05"] = dict(
   text="Decides necessary conditions of chunking independence: no path drops or bypasses bytes that were read (readers and all consumers keep everything), ReadKey drains pending keys before reading, partially matched keys are pushed back in front with mustWait computed first, buffered keys are used without reading. Schedule independence as such is not decided.",
   ref="§5 C05")
 
+CLAIMS["C02"] = dict(
+  level="other",
+  technique="static analysis: backward value slice of what self-insert inserts, byte/rune/column unit analysis (abstract interpretation over go/ssa) on the insertion path, ordering check in Line.Insert, bind-table constants of the default keymaps",
+  text="Decides that self-insert inserts exactly the caller key on every non-autopair path, that no column/byte quantity is used as a character position while inserting, that Line.Insert copies the tail before its in-place append, that every printable ASCII key is self-insert by default in emacs and vi-insert, and that meta conversion is guarded by convert-meta. End-to-end fidelity for non-ASCII text depends on start-up bind tables and byte-wise dispatch (value-level) and is not decided.",
+  ref="§5 C02")
+CLAIMS["C04"] = dict(
+  level="other",
+  technique="static analysis: byte/rune/column unit analysis over every function of the redisplay path, recompute-before-paint ordering (must-pass-through), only-writer check of the coordinate fields",
+  text="Decides that coordinates are recomputed before every use in Refresh/AcceptLine, that only computeCoordinates writes them, and that no byte count is used as a rune index or as a column count anywhere on the display path (which is what misplaces the cursor or leaves remnants for multi-byte / double-width text). The painted grid itself needs a terminal model and is not decided.",
+  ref="§5 C04")
+CLAIMS["C20"] = dict(
+  level="other",
+  technique="static analysis: goroutine inventory, per-thread-root reachability over the VTA call graph combined with an intraprocedural must-lockset analysis of every field access, writes-under-RLock, blocking-under-lock, lock pairing and re-entrancy checks, channel-send protocol",
+  text="Decides which struct types are shared between the main loop, the resize goroutine and Printf without a common lock (the pinned design shares the whole editor state: known findings, one per struct type and thread pair), that no field is written under a read lock, that locks are paired and never re-entered, and that nothing blocks while Keys.mutex is held. Absence of races/deadlocks over all interleavings is not decided.",
+  ref="§5 C20")
+
 NA_REASONS = {
  "C15": "Cycle coverage is arithmetic over a grid whose shape is computed at run time from candidate widths and terminal width; no pairing/ownership/ordering/table clause is a necessary condition, and a bounds proof of rows[y][x] needs the same run-time shape invariants. A check would be a brittle proxy (DESIGN.md §5 C15, §8).",
 }
